@@ -99,7 +99,8 @@ def run_unit(name, mod, only_props, tier):
         return cache[rel]
 
     def new_ob(fname, fn, clause, props=None):
-        ob = Obligation("%s.%s.%s" % (prop, label, fname), props or [prop], "polyvc", mod.FILE + "::" + fn, clause)
+        pfx = prop if (not props or prop in props) else props[0]
+        ob = Obligation("%s.%s.%s" % (pfx, label, fname), props or [prop], "polyvc", mod.FILE + "::" + fn, clause)
         ob.unit_name = name
         obls.append(ob)
         return ob
@@ -383,8 +384,11 @@ def run_unit(name, mod, only_props, tier):
     # ---- constants
     if hasattr(mod, "constants_check"):
         try:
-            for cname, okk, clause in mod.constants_check(read):
-                ob = new_ob(cname, cname, clause, getattr(mod, "CONSTANTS_PROPS", None))
+            for item in mod.constants_check(read):
+                cname, okk, clause = item[:3]
+                ob = new_ob(cname, cname, clause, item[3] if len(item) > 3 else getattr(mod, "CONSTANTS_PROPS", None))
+                if len(item) > 4:
+                    ob.witness = item[4]
                 ob.vcs = 1
                 ob.status = DISCHARGED if okk else FAILED
                 if not okk:
